@@ -73,10 +73,15 @@ def leaves_of(node, path=()):
     if node["t"] == "field":
         yield path, node
     elif node["t"] == "dict":
+        subs = [s for _, s in node["items"]]
         for name, sub in node["items"]:
+            if sub["t"] == "ref":       # the same Python object as an earlier sibling collection
+                sub = subs[sub["to"]]
             yield from leaves_of(sub, path + (name,))
     else:
         for i, sub in enumerate(node["items"]):
+            if sub["t"] == "ref":
+                sub = node["items"][sub["to"]]
             yield from leaves_of(sub, path + (i,))
 
 
@@ -136,11 +141,14 @@ class FieldsWorld(World):
             else:
                 pool = ACCESS
             return {"t": "field", "shape": self._gen_shape(rng), "access": rng.choice(pool)}
+        items = [self._gen_coll(rng, depth + 1, racc) for i in range(rng.range(1, 3))]
+        colls = [j for j, it in enumerate(items) if it["t"] in ("dict", "list")]
+        if colls and rng.chance(0.25):
+            # the user re-uses one collection object for several channels (ch0 = ch1 = chan)
+            items.append({"t": "ref", "to": rng.choice(colls)})
         if k < 75:
-            return {"t": "dict", "items": [[f"f{i}", self._gen_coll(rng, depth + 1, racc)]
-                                           for i in range(rng.range(1, 3))]}
-        return {"t": "list", "items": [self._gen_coll(rng, depth + 1, racc)
-                                       for i in range(rng.range(1, 3))]}
+            return {"t": "dict", "items": [[f"f{i}", it] for i, it in enumerate(items)]}
+        return {"t": "list", "items": items}
 
     def gen_config(self, rng, prop):
         if prop == "C11":
@@ -148,6 +156,9 @@ class FieldsWorld(World):
             coll = self._gen_coll(rng, 0, racc)
             return {"kind": "register", "access": racc, "coll": coll,
                     "annot": int(coll["t"] == "dict" and rng.chance(0.4))}
+        if rng.chance(0.2):
+            from worlds.components import gen_register
+            return {"kind": "regreal", "reg": gen_register(rng)}
         act = rng.choice(ACTIONS[:5] * 3 + ACTIONS[5:])
         sh = self._gen_shape(rng) if rng.chance(0.5) else ["u", rng.range(1, 3)]
         w = shape_width(sh)
@@ -167,6 +178,14 @@ class FieldsWorld(World):
 
     def gen_ops(self, rng, config, prop):
         ops = []
+        if config["kind"] == "regreal":
+            leaves = list(leaves_of(config["reg"]["coll"]))
+            W = sum(shape_width(l["shape"]) for _, l in leaves)
+            for t in range(rng.range(20, 50)):
+                ops.append({"rs": rng.below(2), "ws": rng.below(2), "wd": rng.bits(W),
+                            "fv": [rng.bits(shape_width(l["shape"])) if rng.chance(0.5) else 0
+                                   for _, l in leaves]})
+            return ops
         if config["kind"] == "register":
             leaves = list(leaves_of(config["coll"]))
             W = sum(shape_width(l["shape"]) for _, l in leaves)
@@ -188,7 +207,10 @@ class FieldsWorld(World):
 
     # ------------------------------------------------------------------------------------------
     def run(self, config, ops, props, stats, hist):
-        if config["kind"] == "register":
+        if config["kind"] == "regreal":
+            if "C12" in props:
+                self.run_regreal(config, ops, stats, hist)
+        elif config["kind"] == "register":
             if "C11" in props:
                 self.run_register(config, ops, stats, hist)
         else:
@@ -209,9 +231,16 @@ class FieldsWorld(World):
         def build(node):
             if node["t"] == "field":
                 return csr.Field(MockAction, make_shape(node["shape"]), node["access"])
+            built = []
+            for sub in ([s for _, s in node["items"]] if node["t"] == "dict" else node["items"]):
+                if sub["t"] == "ref":
+                    built.append(built[sub["to"]])      # the very same object, not a copy
+                    stats.probe("collection_object_used_twice")
+                else:
+                    built.append(build(sub))
             if node["t"] == "dict":
-                return {name: build(sub) for name, sub in node["items"]}
-            return [build(sub) for sub in node["items"]]
+                return {name: b_ for (name, _), b_ in zip(node["items"], built)}
+            return built
 
         racc = config["access"]
         leaves = list(leaves_of(config["coll"]))
@@ -331,6 +360,69 @@ class FieldsWorld(World):
             stats.probe("enum_field")
         if config.get("annot"):
             stats.probe("annotation_defined")
+        hw.run_tb(sim, tb)
+
+    def run_regreal(self, config, ops, stats, hist):
+        """C12 through a real register: 'a field's data output always equals what a bus read of
+        it returns' - the bus read is the field's bit range of the register's element.r_data."""
+        from amaranth import Value
+        from worlds.components import build_register
+        cfg = config["reg"]
+        b = build_register(cfg)
+        reg = b.dut
+        leaves = list(leaves_of(cfg["coll"]))
+        acts = []
+        for path, l in leaves:
+            obj = reg.field
+            for key in path:
+                obj = obj[key]
+            acts.append(obj)
+        sim = hw.build_sim(hw.make_top(reg))
+        el = reg.element
+        readable, writable = "r" in cfg["access"], "w" in cfg["access"]
+        W = sum(shape_width(l["shape"]) for _, l in leaves)
+
+        async def tb(ctx):
+            p = hw.Pins(ctx)
+            for t, op in enumerate(ops):
+                if readable:
+                    p.set(el.r_stb, int(op.get("rs", 0)) & 1)
+                if writable:
+                    p.set(el.w_stb, int(op.get("ws", 0)) & 1)
+                    if W:
+                        p.set(el.w_data, int(op.get("wd", 0)) & ((1 << W) - 1))
+                fv = list(op.get("fv") or [])
+                for i, ((path, l), a) in enumerate(zip(leaves, acts)):
+                    w = shape_width(l["shape"])
+                    v = (int(fv[i]) if i < len(fv) else 0) & ((1 << w) - 1) if w else 0
+                    if not w:
+                        continue
+                    for nm in ("r_data", "set", "clear"):
+                        if nm == "r_data" and l["act"] != "R":
+                            continue
+                        if hasattr(a, nm):
+                            p.set(getattr(a, nm), v)
+                if readable and W:
+                    bus = p.get(el.r_data)
+                    off = 0
+                    for (path, l), a in zip(leaves, acts):
+                        w = shape_width(l["shape"])
+                        if w and hasattr(a, "data"):
+                            out = p.get(a.data) & ((1 << w) - 1)
+                            stats.checks += 1
+                            if (bus >> off) & ((1 << w) - 1) != out:
+                                raise Violation("C12", "data-output-differs-from-bus-read", t,
+                                                f"field {path} ({l['act']}, {l['shape']}) at bit "
+                                                f"{off}: data={out:#x}, register read returns "
+                                                f"{(bus >> off) & ((1 << w) - 1):#x} "
+                                                f"(element.r_data={bus:#x})")
+                        off += w
+                    stats.work += 1
+                hist.rec(t, p.get(el.r_data) if readable and W else 0)
+                await ctx.tick()
+            stats.cycles += len(ops)
+
+        stats.fault("read_and_write_same_cycle", sum(1 for o in ops if o.get("rs") and o.get("ws")))
         hw.run_tb(sim, tb)
 
     def run_action(self, config, ops, stats, hist):
